@@ -281,7 +281,7 @@ pub fn main(tier: Tier, replay: Option<String>) -> i32 {
          distinct by hash of schema+ops.",
     );
     ctx.assume("a statement runs on the twin only when the indexed database accepted it (keeps uniqueness by construction); close/reopen is not part of this differential");
-    let cases = tier.pick(2000, 80_000);
+    let cases = tier.pick(2000, 20_000);
     vcore::drive(&ctx, &check, strategy, cases, 16);
     ctx.finish()
 }
